@@ -2079,7 +2079,12 @@ Error BaseRAPass::_mark_stack_args_to_keep() noexcept {
 
       // NOTE: Update StackOffset here so when `_args_assignment.update_func_frame()` is called it will take into
       // consideration moving to stack slots. Without this we may miss some scratch registers later.
+      //
+      // The destination is the home slot of the virtual register, so it has the type of the virtual register - the
+      // argument has to be converted (extended) to it like an argument that is moved to a register, and the store must
+      // have the width of the slot.
       FuncValue& dst_arg = _args_assignment.arg(work_reg->arg_index(), work_reg->arg_value_index());
+      dst_arg.init_type_id(work_reg->type_id());
       dst_arg.assign_stack_offset(0);
     }
   }
